@@ -1,13 +1,15 @@
 """C14 - agent registry stays consistent under creation, deletion and reconfiguration."""
 from .. import tlc, gen, common, abm_replay
 
-TYPES = ["a", "b"]
+TYPES = ["a", "b", "c"]
+SPAWN = {"c": ["a"]}          # creating a "c" (a firm) creates an "a" (an employee) from inside initialize()
 OPS = '{"Create","Delete","Configure","Reset","SetState"}'
 
 
 def consts(maxids):
-    return dict(Types='{"a","b"}', Vals='{2}', Configs='{<< <<"a",1>>, <<"b",1>> >>, << <<"b",2>> >>}',
-                MaxIds=str(maxids), MaxEvents='0', MaxSteps='0', Delays='{0}', Dt100='100', RunSpecs='{}', Ops=OPS)
+    return dict(Types='{"a","b","c"}', Vals='{2}', Spawn='[t \\in {"a","b","c"} |-> IF t = "c" THEN <<"a">> ELSE <<>>]',
+                Configs='{<< <<"a",1,2>>, <<"c",1,2>> >>, << <<"b",2,2>> >>}',
+                MaxIds=str(maxids), MaxEvents='0', MaxSteps='0', Delays='{0}', Dt100='100', RunSpecs='{}', MaxPlans='0', PlanAhead='1', Ops=OPS)
 
 
 INVS = ["UniqueIds", "IdsBelowNext", "TypeMapExact", "CountsAgree", "FoldOK"]
@@ -22,11 +24,12 @@ def run(tier, replay_file=None):
     if mc.violation:
         R.violation("spec:" + mc.violation, {"trace": mc.trace[:3000]})
     R.cov["states"], R.cov["transitions"] = mc.distinct, mc.generated
-    cv = tlc.run("Abm", dict(consts(3 if quick else 5), L='99'), invariants=INVS, view="View", spec="Spec", coverage=True)
-    R.cov["tlc_actions"] = {k: v[1] for k, v in cv.coverage.items() if v[1] > 0 and k not in ("Init",)}
-    for must in ("Create", "DoDelete", "Configure", "Reset", "DoSetState"):
-        if cv.coverage.get(must, (0, 0))[1] == 0:
-            raise common.Machinery("action %s never taken in the exhaustive run (vacuous)" % must)
+    if not quick:
+        cv = tlc.run("Abm", dict(consts(4), L='99'), invariants=INVS, view="View", spec="Spec", coverage=True)
+        R.cov["tlc_actions"] = {k: v[1] for k, v in cv.coverage.items() if v[1] > 0 and k not in ("Init",)}
+        for must in ("Create", "DoDelete", "Configure", "Reset", "DoSetState"):
+            if cv.coverage.get(must, (0, 0))[1] == 0:
+                raise common.Machinery("action %s never taken in the exhaustive run (vacuous)" % must)
     # 2. spec -> code: all histories of length L (BFS) + long random ones (simulate), replayed with every
     #    query compared after every operation
     Lb = 4 if quick else 5
@@ -37,7 +40,7 @@ def run(tier, replay_file=None):
     R.cov["exhaustive"] = True
     n_ops = {}
     for hist in hs + hs2:
-        bad = abm_replay.replay(hist, TYPES, 100, 2, {"q"})
+        bad = abm_replay.replay(hist, TYPES, 100, 2, {"q"}, SPAWN)
         R.add("traces_validated_against_impl")
         for h in hist:
             n_ops[h["op"]] = n_ops.get(h["op"], 0) + 1
@@ -52,7 +55,7 @@ def run(tier, replay_file=None):
     import copy
     ctl = copy.deepcopy(hs[0])
     ctl[-1]["q"]["nid"] += 1
-    if abm_replay.replay(ctl, TYPES, 100, 2, {"q"}) is None:
+    if abm_replay.replay(ctl, TYPES, 100, 2, {"q"}, SPAWN) is None:
         raise common.Machinery("negative control not rejected")
     R.assumptions += ["reference agents are subclasses of BPTK_Py.Agent registered through agent factories",
                       "bounds: ids <= %d exhaustively (length %d), <= 14 ids in random histories" % (4 if quick else 5, Lb)]
